@@ -64,6 +64,36 @@ pub fn main() {
         for (n, m, c) in sess.snapshot() { println!("      {}{} = {}", if m { "~" } else { "" }, n, c.short()); }
       }
     }
+    "c08at" => {
+      // debugging aid: print the corpus programs whose first line starts with the given text (tier thorough)
+      let ps = crate::checks::c08::program_corpus(Tier::Thorough);
+      for (i, (src, fam)) in ps.iter().enumerate() { if src.starts_with(args[2].as_str()) { let lo = (i / 16) * 16; for j in lo..(lo + 16).min(ps.len()) { println!("#{} [{}] {}", j, ps[j].1, ps[j].0.chars().take(100).collect::<String>().replace('\n', " ⏎ ")); } let _ = fam; break; } }
+    }
+    "fmtprobe" => {
+      // programs separated by lines containing only "---": formatted text and the first differing lines of the two normalised trees
+      let mut s = String::new();
+      std::io::stdin().read_to_string(&mut s).unwrap();
+      crate::subject::silence_panics();
+      for prog in s.split("\n---\n") {
+        let prog = prog.trim_matches('\n');
+        if prog.is_empty() { continue; }
+        println!("=== {:?}", prog);
+        let t1 = match mech_syntax::parser::parse(prog) { Ok(t) => t, Err(_) => { println!("  does not parse"); continue; } };
+        let f1 = match std::panic::catch_unwind(std::panic::AssertUnwindSafe(|| mech_syntax::formatter::Formatter::new().format(&t1))) { Ok(f) => f, Err(_) => { println!("  formatter panics"); continue; } };
+        println!("  formatted: {:?}", f1);
+        let t2 = match mech_syntax::parser::parse(&f1) { Ok(t) => t, Err(_) => { println!("  formatted text does not parse"); continue; } };
+        let (a, b) = (crate::checks::c08::shape_of(&t1), crate::checks::c08::shape_of(&t2));
+        if a == b { println!("  trees equal"); } else {
+          let (al, bl): (Vec<&str>, Vec<&str>) = (a.lines().collect(), b.lines().collect());
+          let k = al.iter().zip(bl.iter()).take_while(|(x, y)| x == y).count();
+          let from = k.saturating_sub(6);
+          println!("  --- first tree (lines {}..)", from);
+          for l in al.iter().skip(from).take(16) { println!("    {}", l); }
+          println!("  --- second tree");
+          for l in bl.iter().skip(from).take(16) { println!("    {}", l); }
+        }
+      }
+    }
     "fsmtrace" => {
       let mut src = String::new();
       std::io::stdin().read_to_string(&mut src).unwrap();
